@@ -538,7 +538,7 @@ func splitMap(g *Gen, m []KV) [][]KV {
 }
 
 func suiteC09(c *Ctx) {
-	n := c.scale(2500, 150000)
+	n := c.scale(2500, 60000)
 	for i := 0; i < n; i++ {
 		g := c.gen()
 		ell := g.chance(0.15)
@@ -998,7 +998,7 @@ func suiteC10(c *Ctx) {
 	}
 	c.stats["c10:shapes-enumerated"] = cnt
 	// random larger ones
-	n := c.scale(600, 60000)
+	n := c.scale(600, 15000)
 	for i := 0; i < n; i++ {
 		g := c.gen()
 		var mk func(d int) shape
@@ -1317,7 +1317,7 @@ func monitorC16(c *Ctx, id string, cs Case, e *Exec, final []string) {
 // ---------- C11 ----------
 
 func suiteC11(c *Ctx) {
-	n := c.scale(1200, 80000)
+	n := c.scale(1200, 30000)
 	for i := 0; i < n; i++ {
 		g := c.gen()
 		steps := 6 + g.pick(c.scale(20, 50))
